@@ -189,6 +189,11 @@ class Alphabet:
             ("cmp", "fields", (("map", "sum_vw"), "s"), "==", 5.5),              # function over two entries of the field set
             ("noop", "fields"),
         ]
+        # naive comparison values: local time, like a naive point time (the process zone is pinned)
+        A += [
+            ("cmp", "time", (), "==", t[1].astimezone().replace(tzinfo=None)),
+            ("cmp", "time", (), "<", t[2].astimezone().replace(tzinfo=None)),
+        ]
         if level != "quick":
             for i in (0, 2, 3):
                 for op in ("==", "!=", "<", "<=", ">", ">="):
